@@ -137,6 +137,8 @@ pub fn gen_c11(base_seed: u64, batch: &str, run: u64, rng: &mut Rng) -> Scenario
             }
             5 => Op::Call { slot: call_slot, m: M::D0, x: rng.below(4) as u8, y: 0, catch: false, fault: Some(Fault::DebugPanic), keep: false },
             6 => Op::Own { slot: call_slot, which: OwnKind::Multi, x: 0, catch: false, die_with_value: false, fault: Some(Fault::ClonePanic) },
+            // a mock-induced error whose message renders a long, non-ASCII argument
+            _ if rng.chance(1, 4) => Op::Call { slot: call_slot, m: M::D0, x: 3, y: 0, catch: false, fault: None, keep: false },
             _ => match pick_call(rng, &|p| p == Pred::MockPanic) {
                 Some((m, x, y)) => Op::Call { slot: call_slot, m, x, y, catch: false, fault: None, keep: false },
                 None => Op::Call { slot: call_slot, m: M::E0, x: 0, y: 0, catch: false, fault: None, keep: false },
